@@ -2,6 +2,7 @@ package checks
 
 import (
 	"fmt"
+	"sort"
 	"strings"
 	"sync"
 
@@ -123,6 +124,40 @@ func c15Variants(src string) (base string, vs []c15Variant) {
 			vs = append(vs, c15Variant{joinWithGap(ts, g, string(cp)), fmt.Sprintf("uspace:U+%04X", cp), tokClass(ts[g-1]) + " | " + tokClass(ts[g])})
 		}
 	}
+	// a run of blanks in front of the program that puts the lexer's 4096-byte read boundary right before, inside and
+	// right after every escape, two-character operator and comment opener of the program
+	{
+		pads := map[int]bool{}
+		for p := 0; p < len(base); p++ {
+			if strings.IndexByte("\\-=<>!:(@/'\"", base[p]) < 0 {
+				continue
+			}
+			for d := -2; d <= 2; d++ {
+				if pad := 4096 - p - d; pad > 0 && p+d >= 0 && p+d <= len(base) {
+					pads[pad] = true
+				}
+			}
+		}
+		var ps []int
+		for pad := range pads {
+			ps = append(ps, pad)
+		}
+		sort.Ints(ps)
+		if len(ps) > 60 {
+			// long programs: every k-th boundary position, the first and the last ones always
+			step := len(ps)/50 + 1
+			var kept []int
+			for i, pad := range ps {
+				if i < 5 || i >= len(ps)-5 || i%step == 0 {
+					kept = append(kept, pad)
+				}
+			}
+			ps = kept
+		}
+		for _, pad := range ps {
+			vs = append(vs, c15Variant{strings.Repeat(" ", pad) + base, "leading:blank-run-ending-at-the-read-boundary", fmt.Sprintf("boundary at byte %d of the program", 4096-pad)})
+		}
+	}
 	// the same text read from a file (CompileFile) instead of a string, also without a final newline / with CR LF
 	vs = append(vs, c15Variant{base, "file:same-text-through-CompileFile", "file"})
 	vs = append(vs, c15Variant{gen.JoinWith(ts, "\r\n") + "\r\n", "file:crlf-through-CompileFile", "file"})
@@ -180,7 +215,7 @@ func C15(r *drv.Run) {
 	if !quick(r) {
 		ngen = 4000
 	}
-	r.Rule = "truncated programs (every token prefix of the hand corpus, accepted or not) under every filler behind their last token and in front of their first; commands with an empty body in every amount form (alone, first, in the middle, last in a source) among the bases; every filler also behind the last token and before the first; valid programs as token lists (hand corpus covering every production incl. process statements/expressions, amount clauses, named loops, ranges, caseless, regex literals; repository examples; generated programs) x EVERY gap between adjacent tokens x {newline, tab run, CRLF, line comment, block comment glued, block comment with blanks, multi-line block comment, two line comments, two glued block comments, block then line comment, three comments mixed with blanks, vertical tab, form feed, block comments whose text mentions `--(` or consists of dashes and parentheses, the empty block comment, a line comment mentioning block syntax, line and block comments holding bytes that are not valid UTF-8} and - where the neighbours are not both words - removal of the whitespace (also between a number and the word behind it: digits end at the first letter); every keyword individually and all together in UPPER and MiXeD case; `function` written for its alias `transform`; leading/trailing layout; the same text, and its CR LF form, read from a file through CompileFile; a 5 MiB gap (blank lines, one block comment, line comments) between the commands of two programs, through CompileFile and through Compile; eight White_Space code points beyond ASCII (U+0085, U+00A0, U+1680, U+2000, U+2003, U+2028, U+205F, U+3000) in one gap per program, judged as a group: all of them separate tokens or none does. Oracle (metamorphic): variant accepted iff the single-blank original is, reflect.DeepEqual + canonical-dump equality of the syntax trees (hook H6), identical Run results on 3 texts (a text on which the original alone needs more than 4 000 VM steps is dropped for its variants, which run under a budget of 30 000). Non-trivial = every distinct variant whose three verdicts agreed; distinct by variant source."
+	r.Rule = "a run of blanks in front of each program that puts the lexer's 4096-byte read boundary right before, inside and right after every escape, quote, two-character operator and comment opener; truncated programs (every token prefix of the hand corpus, accepted or not) under every filler behind their last token and in front of their first; commands with an empty body in every amount form (alone, first, in the middle, last in a source) among the bases; every filler also behind the last token and before the first; valid programs as token lists (hand corpus covering every production incl. process statements/expressions, amount clauses, named loops, ranges, caseless, regex literals; repository examples; generated programs) x EVERY gap between adjacent tokens x {newline, tab run, CRLF, line comment, block comment glued, block comment with blanks, multi-line block comment, two line comments, two glued block comments, block then line comment, three comments mixed with blanks, vertical tab, form feed, block comments whose text mentions `--(` or consists of dashes and parentheses, the empty block comment, a line comment mentioning block syntax, line and block comments holding bytes that are not valid UTF-8} and - where the neighbours are not both words - removal of the whitespace (also between a number and the word behind it: digits end at the first letter); every keyword individually and all together in UPPER and MiXeD case; `function` written for its alias `transform`; leading/trailing layout; the same text, and its CR LF form, read from a file through CompileFile; a 5 MiB gap (blank lines, one block comment, line comments) between the commands of two programs, through CompileFile and through Compile; eight White_Space code points beyond ASCII (U+0085, U+00A0, U+1680, U+2000, U+2003, U+2028, U+205F, U+3000) in one gap per program, judged as a group: all of them separate tokens or none does. Oracle (metamorphic): variant accepted iff the single-blank original is, reflect.DeepEqual + canonical-dump equality of the syntax trees (hook H6), identical Run results on 3 texts (a text on which the original alone needs more than 4 000 VM steps is dropped for its variants, which run under a budget of 30 000). Non-trivial = every distinct variant whose three verdicts agreed; distinct by variant source."
 	r.Assumptions = []string{
 		"a block comment glued directly after '-' is not a layout change (it lexes as a different token sequence) and is not generated",
 		"the harness tokenizer's token boundaries are those of the documented lexing rules; it is only applied to programs known to be valid",
